@@ -267,14 +267,18 @@ type model struct {
 	fired       map[string]int
 }
 
+// subMsg marks an expected message that must be CONTAINED in the actual one: how the text of a Go
+// panic is turned into the script error's text is not specified (a prefix or wrapping is fine)
+const subMsg = "\x00sub:"
+
 func faultMsg(kind string, k int) string {
 	switch kind {
 	case "panic-string":
-		return "boom" + strconv.Itoa(k)
+		return subMsg + "boom" + strconv.Itoa(k)
 	case "panic-error":
-		return "errboom" + strconv.Itoa(k)
+		return subMsg + "errboom" + strconv.Itoa(k)
 	case "panic-value":
-		return strconv.Itoa(1000 + k)
+		return subMsg + strconv.Itoa(1000+k)
 	case "runtime-error":
 		return anyMsg
 	}
@@ -567,6 +571,9 @@ func matchTrace(want, got []string) bool {
 		if strings.HasSuffix(w, ":*") && strings.HasPrefix(g, strings.TrimSuffix(w, "*")) {
 			continue
 		}
+		if i := strings.Index(w, subMsg); i >= 0 && strings.HasPrefix(g, w[:i]) && strings.Contains(g[i:], w[i+len(subMsg):]) {
+			continue
+		}
 		return false
 	}
 	return true
@@ -781,9 +788,9 @@ func (Prop) Run(t *testing.T, c *harness.Case, verbose bool) *harness.Result {
 		if f, ok := faults[calls]; ok {
 			switch f {
 			case "panic-string":
-				panic(faultMsg(f, calls))
+				panic(strings.TrimPrefix(faultMsg(f, calls), subMsg))
 			case "panic-error":
-				panic(errors.New(faultMsg(f, calls)))
+				panic(errors.New(strings.TrimPrefix(faultMsg(f, calls), subMsg)))
 			case "panic-value":
 				panic(1000 + calls)
 			case "runtime-error":
@@ -850,6 +857,7 @@ func (Prop) Run(t *testing.T, c *harness.Case, verbose bool) *harness.Result {
 		res.Detail = fmt.Sprintf("%s\nfaults (k-th host call -> kind): %v\nexpected trace: %s\nactual trace:   %s\nexpected error: %q  actual error: %q\n%s",
 			detail, faults, strings.Join(a.trace, " "), strings.Join(trace, " "), a.err, got, src)
 		res.Signature = class
+		res.Detail = strings.NewReplacer(subMsg, "~", anyMsg, "<any error>").Replace(res.Detail)
 		return res
 	}
 	if crashed != "" {
@@ -862,7 +870,11 @@ func (Prop) Run(t *testing.T, c *harness.Case, verbose bool) *harness.Result {
 		if (o.err == "") != (got == "") {
 			return false, "error"
 		}
-		if o.err != "" && o.err != anyMsg && o.err != got {
+		if strings.HasPrefix(o.err, subMsg) {
+			if !strings.Contains(got, strings.TrimPrefix(o.err, subMsg)) {
+				return false, "error"
+			}
+		} else if o.err != "" && o.err != anyMsg && o.err != got {
 			return false, "error"
 		}
 		if o.err == "" && o.val != anyVal && o.val != nil && o.val != val {
